@@ -11,6 +11,7 @@ EXPL = ("R08.1 constant propagation of the three skip_* switches through builder
         "(`,\"name\":`) to a fields buffer registers that same name in the uniqueness map (in the body or through its caller chain). "
         "R08.3 = R02.3 verdict before bytes. R08.4 branches on skip_* / validate_name gate checks only: the region executed only when "
         "validation is enabled contains no buffer append and no early exit that is not preceded by recording an error. "
+        "R08.5 the uniqueness bookkeeping never folds its key (dimension-set index / name) with wrapping or modular arithmetic. "
         "Not decided: completeness of the defect list for arbitrary entries.")
 CR = c02.CR
 SW = ("skip_validate_unique", "skip_validate_dimensions_exist", "skip_validate_names")
@@ -73,6 +74,31 @@ def run(ctx):
         ctx.check(ok, "R08.2", key, loc(b, js.bb),
                   "a top-level JSON member is emitted under a name that is never registered in the uniqueness map (%s): a second value "
                   "under the same name is accepted even with all validations on" % how, how)
+
+    # ------------------------------------------------------------------ R08.5 the registry key is not folded by lossy arithmetic
+    LOSSY = ("wrapping_shl", "wrapping_shr", "wrapping_add", "wrapping_sub", "wrapping_mul", "overflowing_shl", "overflowing_shr",
+             "rem_euclid", "checked_rem", "rotate_left", "rotate_right", "unchecked_shl")
+    nk = 0
+    for b in F.all_bodies(CR):
+        if not c02.in_scope(b) or not (b.impl and (b.impl.get("trait") or "").endswith("::ValueWriter") and b.name in ("metric", "string")):
+            continue
+        pr = Prov(b)
+        nk += 1
+        bad = []
+        for c in b.calls():
+            if c.name in LOSSY and c.def_.startswith("core::num"):
+                bad.append((c.bb, c.name))
+        for i in b.live_blocks():
+            for s_ in b.stmts(i):
+                if s_["k"] == "assign" and s_["rv"]["k"] == "binop" and s_["rv"]["op"] in ("Rem", "ShlUnchecked", "ShrUnchecked"):
+                    o = pr.operand(s_["rv"]["a"]) | pr.operand(s_["rv"]["b"])
+                    if any(x[0] == "arg" or x[0] == "call" for x in o) and not s_.get("exp"):
+                        bad.append((i, s_["rv"]["op"]))
+        ctx.check(not bad, "R08.5", fnkey(b) + "#registry-key-not-folded", loc(b, bad[0][0] if bad else None),
+                  "the uniqueness bookkeeping folds its key with lossy arithmetic (%s): two different dimension sets / names can alias, so a valid entry is "
+                  "rejected as `duplicate field` (or a real duplicate is missed) once enough distinct sets occur" % sorted({n for _, n in bad}),
+                  "no wrapping / modular arithmetic in the validation path")
+    ctx.floor("R08.5", "validating writer methods", nk, 2)
 
     # ------------------------------------------------------------------ R08.3
     c02.verdict_before_bytes(ctx, F, "R08.3")
